@@ -22,7 +22,7 @@ func checkC11(c *Ctx) {
 	c.Rule("C11.2", "default tempo: with no tempo event the tempo lookup and the time query use 120 BPM", 2)
 	c.Rule("C11.3", "segment rule: cumulative pass: time(k) = time(prev) + D(tempo in force before tick(k), tick(k) - tick(prev)); time query: time(prev) + D(prev.bpm, x - prev.tick), prev = last change before x; repeated ticks", 4)
 	c.Rule("C11.4", "per-event times: the iterator hands out TimeAt(absolute tick) with the absolute tick a running sum of deltas, reset per track", 1)
-	c.Rule("C11.5", "tempo collection: while reading, each tempo event is recorded with the running absolute tick of its track (reset at end-of-track) and the decoded tempo", 2)
+	c.Rule("C11.5", "tempo collection: while reading, each tempo event is recorded with the running absolute tick of its track (reset at end-of-track) and the decoded tempo; the map is finalised (sorted, timed, latched) only after the last event is recorded", 3)
 
 	mtT := p.namedType("smf", "MetricTicks")
 	smfT := p.namedType("smf", "SMF")
@@ -489,7 +489,105 @@ func checkC11(c *Ctx) {
 			c.Check(okSum && okReset, "C11.5", "tempo events recorded with the running tick of their track", p.Pos(coll.Pos()), "record tick = running sum of deltas, reset to 0 at end-of-track", fmt.Sprintf("tempo record tick is not the per-track running sum (sum=%v reset=%v)", okSum, okReset))
 			c.Check(okDecode, "C11.5", "tempo decoded into the record", p.Pos(coll.Pos()), "GetMetaTempo writes the record's BPM", "the decoded tempo is not stored in the record")
 		}
+		tempoFinalisedAfterCollection(c, "C11.5", rf)
 	}
+}
+
+// tempoFinalisedAfterCollection: the tempo map is sorted/timed once (a latch marks it finished); tempo events recorded
+// after that point would never be timed. So on the read path no finalisation may be followed by a further recording:
+// in every function, no path leads from an instruction that may set the finished latch to one that may append a record.
+func tempoFinalisedAfterCollection(c *Ctx, rule string, rf *ssa.Function) {
+	p := c.P
+	flag := p.roleField("smf.SMF", "tempoChangesFinished")
+	list := p.roleField("smf.SMF", "tempoChanges")
+	if flag == nil || list == nil {
+		c.Unk(rule, "tempo map latch / list (roles)", "-", "not resolved")
+		return
+	}
+	scope := p.Reachable(rf)
+	direct := func(f *ssa.Function, in ssa.Instruction) (fin, coll bool) {
+		if st, ok := in.(*ssa.Store); ok {
+			fv := fieldVar(st.Addr)
+			if fv == flag {
+				if k, ok := st.Val.(*ssa.Const); ok && k.Value != nil && k.Value.String() == "true" {
+					fin = true
+				}
+			}
+			if fv == list {
+				if call, ok := st.Val.(*ssa.Call); ok {
+					if b, ok := call.Call.Value.(*ssa.Builtin); ok && b.Name() == "append" {
+						coll = true
+					}
+				}
+			}
+		}
+		return
+	}
+	mayFin, mayColl := map[*ssa.Function]bool{}, map[*ssa.Function]bool{}
+	for changed := true; changed; {
+		changed = false
+		for _, f := range scope {
+			for _, b := range f.Blocks {
+				for _, in := range b.Instrs {
+					fin, coll := direct(f, in)
+					if call, ok := in.(ssa.CallInstruction); ok {
+						for _, cal := range p.Callees(call) {
+							fin = fin || mayFin[cal]
+							coll = coll || mayColl[cal]
+						}
+					}
+					if fin && !mayFin[f] {
+						mayFin[f] = true
+						changed = true
+					}
+					if coll && !mayColl[f] {
+						mayColl[f] = true
+						changed = true
+					}
+				}
+			}
+		}
+	}
+	nColl := 0
+	bad := ""
+	var badPos token.Pos
+	for _, f := range scope {
+		var fins, colls []ssa.Instruction
+		for _, b := range f.Blocks {
+			for _, in := range b.Instrs {
+				fin, coll := direct(f, in)
+				if call, ok := in.(ssa.CallInstruction); ok {
+					for _, cal := range p.Callees(call) {
+						fin = fin || mayFin[cal]
+						coll = coll || mayColl[cal]
+					}
+				}
+				if fin {
+					fins = append(fins, in)
+				}
+				if coll {
+					colls = append(colls, in)
+					nColl++
+				}
+			}
+		}
+		for _, x := range fins {
+			for _, y := range colls {
+				if x != y && canReachAvoiding(x, y, nil) {
+					bad = fmt.Sprintf("in %s the tempo map can be finalised (%s) and a tempo event recorded afterwards (%s): that event is never sorted in or timed", FuncName(f), p.Pos(x.Pos()), p.Pos(y.Pos()))
+					badPos = x.Pos()
+				}
+				if x == y {
+					// one call that does both: the callee is checked on its own
+				}
+			}
+		}
+	}
+	if nColl == 0 {
+		c.Unk(rule, "tempo collection sites", "-", "no append to the tempo list on the read path")
+		return
+	}
+	c.Check(bad == "", rule, "tempo map finalised only after the last tempo event is recorded", p.Pos(badPos), "on the read path no finalisation (sort + cumulative times, latched) can be followed by the recording of a further tempo event", bad)
 }
 
 // ticksFormulaRule: duration -> tick conversion equals Round(ns * resolution * bpm / 6e10) and raises no integer wrap.
